@@ -29,6 +29,13 @@ class C17Backend(TextQueryTestBackend):
     backend_processing_pipeline = ProcessingPipeline()
 
 
+class C17InBackend(C17Backend):
+    """the same with in-expressions enabled: f in ("a", "b") / f contains-all ("a", "b")"""
+    convert_or_as_in = True
+    convert_and_as_in = True
+    in_expressions_allow_wildcards = True
+
+
 TYPES = {"vl": "value_placeholders", "wc": "wildcard_placeholders", "qe": "query_expression_placeholders"}
 
 
@@ -97,8 +104,9 @@ def one(backend_cls, case):
 
 def run(case):
     pr, qr = one(C17Backend, case)
+    _, ir = one(C17InBackend, case)
     _, sr = one(TextQueryTestBackend, case)
-    return {"pipe": pr, "q": qr, "stock": sr}
+    return {"pipe": pr, "q": qr, "qin": ir, "stock": sr}
 
 
 # ---------------------------------------------------------------------------------------------
@@ -153,11 +161,12 @@ class _Hist:
 
 
 def run_history(case):
-    a, b = _Hist(C17Backend, case), _Hist(TextQueryTestBackend, case)
+    a, i, b = _Hist(C17Backend, case), _Hist(C17InBackend, case), _Hist(TextQueryTestBackend, case)
     out = []
     for st in case["steps"]:
-        a.op(st["op"]); b.op(st["op"])
+        a.op(st["op"]); i.op(st["op"]); b.op(st["op"])
         pr, qr = a.step(st)
+        _, ir = i.step(st)
         _, sr = b.step(st)
-        out.append({"pipe": pr, "q": qr, "stock": sr})
+        out.append({"pipe": pr, "q": qr, "qin": ir, "stock": sr})
     return {"steps": out}
